@@ -142,3 +142,51 @@ func register(name string, p func(Case) bool) {
 	classes[name] = p
 	classOrder = append(classOrder, name)
 }
+
+// PoolMatcher returns a function that reports the active known-finding class
+// (or "") for the triple (pool[i], pool[j], pool[k]) of the given property
+// and ecosystem. It is equivalent to calling Match on each triple but lets a
+// class precompute per-pool data.
+func PoolMatcher(property, eco string, pool []string) func(i, j, k int) string {
+	type fm struct {
+		name string
+		f    func(i, j, k int) bool
+	}
+	var fast []fm
+	var slow []string
+	for _, name := range classOrder {
+		if !active[property+"/"+name] {
+			continue
+		}
+		if mk, ok := poolFast[name]; ok {
+			if f := mk(eco, pool); f != nil {
+				fast = append(fast, fm{name, f})
+			}
+			continue
+		}
+		slow = append(slow, name)
+	}
+	if len(fast) == 0 && len(slow) == 0 {
+		return func(i, j, k int) string { return "" }
+	}
+	return func(i, j, k int) string {
+		for _, x := range fast {
+			if x.f(i, j, k) {
+				return x.name
+			}
+		}
+		if len(slow) > 0 {
+			c := Case{Property: property, Check: "laws", Eco: eco, Inputs: []string{pool[i], pool[j], pool[k]}}
+			for _, name := range slow {
+				if classes[name](c) {
+					return name
+				}
+			}
+		}
+		return ""
+	}
+}
+
+// poolFast: per-class constructors of precomputed triple predicates; a
+// constructor returns nil when the class cannot apply to the ecosystem.
+var poolFast = map[string]func(eco string, pool []string) func(i, j, k int) bool{}
